@@ -595,27 +595,47 @@ func checkC20(p *Prog, res *Result, tier string) {
 	checkGuardedIndexing(p, res)
 }
 
-// accepted explicit aborts: construct -> reason
-var acceptedAborts = map[string]string{
-	"(*pkg/backend.backend).notify: panic":                                          "slot-ring capacity assertion: more than 100000 unresolved revisions; not reachable by request contents",
-	"(*pkg/server/service/leader.leaderElection).Campaign$1: klog.Fatal":            "leader-start callback cannot parse its own lock description: deliberate abort",
-	"(*pkg/server/service/leader.leaderElection).Campaign$1: panic":                 "same, after klog.Fatal",
-	"(*pkg/server/service/leader.leaderElection).Campaign$2: klog.Fatal":            "leadership lost: deliberate abort so that the event cache is not served stale",
-	"(*pkg/server/service/leader.leaderElection).Campaign$2: panic":                 "same, after klog.Fatal",
-	"(*pkg/server/service/leader.leaderElection).Campaign: leaderelection.RunOrDie": "client-go election loop; dies only on invalid static config",
-	"(*pkg/server/etcd.backendShim).ListByStream$1: klog.Fatalf":                    "nil stream response from the backend (internal invariant, not request-driven)",
-	"pkg/util.Recover: os.Exit":                                                     "deferred panic handler of server goroutines: turns an already occurring panic into exit(2); not an abort of its own",
-	"pkg/util.getLocalIPs: panic":                                                   "start-up only (local address discovery fails); not reachable from a request",
-	"cmd.main: os.Exit":                                                             "process entry point",
-	"cmd.forceExitWhileGracefulExitTimeout: os.Exit":                                "forced exit after the graceful-exit timeout",
-}
-
+// Explicit aborts (panic, klog.Fatal*, log.Fatal*/Panic*, os.Exit, *OrDie of a dependency) are classified by where they
+// can run, not by the name of the enclosing function:
+//   - not reachable from a request entry point (gRPC service methods, HTTP handlers; closure over calls, interface
+//     implementations, function values, closures, go/defer): start-up, leader-election callbacks, process exit;
+//   - reachable, in an accepted role: the event sink's slot-ring capacity assertion; os.Exit in a function that calls
+//     recover() (the deferred panic handler: it turns a panic that is already happening into an exit); the
+//     nil-response invariant of the shim's streaming list;
+//   - anything else reachable from a request is a violation.
 func checkAborts(p *Prog, res *Result) {
+	r := p.roles()
+	lr := p.leaderRoles()
+	reach := p.requestReachable()
+	if len(p.requestEntries()) < 10 {
+		res.und("C20-R2", "request entry points", "-", fmt.Sprintf("only %d request entry points found", len(p.requestEntries())))
+	}
+	res.Stats["request_entry_points"] = len(p.requestEntries())
+	res.Stats["request_reachable_functions"] = len(reach)
+	callsRecover := func(f *ssa.Function) bool {
+		for _, c := range callsIn(f) {
+			if b, ok := c.Common().Value.(*ssa.Builtin); ok && b.Name() == "recover" {
+				return true
+			}
+		}
+		return false
+	}
+	outermost := func(f *ssa.Function) *ssa.Function {
+		for f.Parent() != nil {
+			f = f.Parent()
+		}
+		return f
+	}
+	abortCnt := map[*ssa.Function]map[string]int{}
 	for _, f := range p.AllFuncs {
 		if f.Synthetic != "" {
 			continue
 		}
-		cnt := map[string]int{}
+		cnt := abortCnt[outermost(f)]
+		if cnt == nil {
+			cnt = map[string]int{}
+			abortCnt[outermost(f)] = cnt
+		}
 		for _, b := range f.Blocks {
 			for _, ins := range b.Instrs {
 				what := ""
@@ -645,23 +665,35 @@ func checkAborts(p *Prog, res *Result) {
 				if what == "" {
 					continue
 				}
-				cnt[what]++
-				construct := fmt.Sprintf("%s: %s", funcName(f), what)
-				if cnt[what] > 1 {
-					construct = fmt.Sprintf("%s #%d", construct, cnt[what])
+				key := what
+				if f.Parent() != nil {
+					key = "lit " + what
 				}
-				if why, ok := acceptedAborts[construct]; ok {
-					res.ok("C20-R2", construct, p.pos(ins.Pos()), "accepted: "+why)
-				} else {
-					res.bad("C20-R2", construct, p.pos(ins.Pos()), "an explicit abort that is not in the accepted set: a request reaching it crashes the node")
+				cnt[key]++
+				construct := fmt.Sprintf("%s: %s", funcName(outermost(f)), what)
+				if f.Parent() != nil {
+					construct = fmt.Sprintf("%s (in a function literal): %s", funcName(outermost(f)), what)
+				}
+				if cnt[key] > 1 {
+					construct = fmt.Sprintf("%s #%d", construct, cnt[key])
+				}
+				switch {
+				case !reach[f]:
+					res.ok("C20-R2", construct, p.pos(ins.Pos()), "not reachable from a request entry point (start-up, leader-election callback or process exit)")
+				case f == r.Sink && what == "panic":
+					res.ok("C20-R2", construct, p.pos(ins.Pos()), "accepted: slot-ring capacity assertion of the event sink (more unresolved revisions than slots); not driven by request contents")
+				case what == "os.Exit" && callsRecover(f):
+					res.ok("C20-R2", construct, p.pos(ins.Pos()), "accepted: deferred panic handler (calls recover()): turns a panic that is already happening into an exit, not an abort of its own")
+				case lr.shimImpl[outermost(f)] && outermost(f).Name() == "ListByStream":
+					res.ok("C20-R2", construct, p.pos(ins.Pos()), "accepted: nil stream response from the backend (internal invariant of the streaming list, not request-driven)")
+				default:
+					res.bad("C20-R2", construct, p.pos(ins.Pos()), "an explicit abort is reachable from a request entry point and is not in an accepted role: a request reaching it crashes the node")
 				}
 			}
 		}
 	}
 }
 
-// checkGuardedIndexing: in pkg/server/etcd, every x[const] where x is a slice-typed field of a protobuf request
-// message must be dominated by a test len(x) == n / len(x) > const implying const < len(x).
 func checkGuardedIndexing(p *Prog, res *Result) {
 	sp := p.ssaPkg("pkg/server/etcd")
 	for _, f := range p.AllFuncs {
